@@ -49,6 +49,7 @@ CHECKS = {
             rapid_part("rapid", "internal/serialization", "TestC12", 40000, 1000000, replay_test="TestC12Replay"),
             fuzz_part("fuzz", "internal/serialization", "FuzzC12", 90),
             rapid_part("graph", "compose", "TestC12Graph", 1500, 96000, qshards=4, replay_test="TestC12GraphReplay", replay_reps=10),
+            rapid_part("pending", "compose", "TestC12Empty", 3000, 200000, replay_test="TestC12EmptyReplay"),
         ],
     ),
 }
